@@ -9,7 +9,19 @@ use std::io;
 use super::{ALPHABET_SIZE, Flags};
 use crate::io::reader::num::{read_u8, read_u32_le, read_uint7_as};
 
-pub fn decode(mut src: &[u8], mut uncompressed_size: usize) -> io::Result<Vec<u8>> {
+pub fn decode(src: &[u8], uncompressed_size: usize) -> io::Result<Vec<u8>> {
+    decode_nested(src, uncompressed_size, 0)
+}
+
+// The sub-streams of a striped stream are streams themselves. Nesting is bounded so that a crafted
+// stream cannot recurse until the stack is exhausted.
+const MAX_STRIPE_DEPTH: usize = 4;
+
+fn decode_nested(
+    mut src: &[u8],
+    mut uncompressed_size: usize,
+    depth: usize,
+) -> io::Result<Vec<u8>> {
     let flags = read_flags(&mut src)?;
 
     let state_count = flags.state_count();
@@ -19,7 +31,14 @@ pub fn decode(mut src: &[u8], mut uncompressed_size: usize) -> io::Result<Vec<u8
     }
 
     if flags.is_striped() {
-        return stripe::decode(&mut src, uncompressed_size);
+        if depth >= MAX_STRIPE_DEPTH {
+            return Err(io::Error::new(
+                io::ErrorKind::InvalidData,
+                "striped streams are nested too deeply",
+            ));
+        }
+
+        return stripe::decode(&mut src, uncompressed_size, depth + 1);
     }
 
     let bit_pack_context = if flags.is_bit_packed() {
